@@ -323,9 +323,15 @@ class ContractInterp(Interp):
                     st.assume(w)
             if take:
                 self.havoc(r.modifies, env)
-                for lst, ev in r.effects:
-                    self.emit(lst, self.eval_spec_expr(ev, env, old))
-                exc = VExc(r.exc, anysub=r.anysub, term=st.fresh("exc", Opaque))
+                em2 = {}
+                for eff in r.effects:
+                    evv = self.eval_spec_expr(eff[1], env, old)
+                    self.emit(eff[0], evv)
+                    em2.setdefault(eff[0], []).append(evv)
+                for g in set(em2) | {g for g, t in c.ghost_init.items() if t == "events"}:
+                    env[g] = VTuple(em2.get(g, []))
+                exc = VExc(r.exc, anysub=r.anysub, term=st.fresh("exc", Opaque),
+                           fields={k: mk_sym(st, self.tenv, t, st.fresh_name(f"exc.{k}")) for k, t in r.fields.items()})
                 env2 = dict(env)
                 if r.bind:
                     env2[r.bind] = exc
@@ -335,16 +341,41 @@ class ContractInterp(Interp):
         self.havoc(c.modifies, env)
         for nm, (t, _w) in c.fresh.items():
             env[nm] = mk_sym(st, self.tenv, t, st.fresh_name(nm))
-        for lst, ev in c.effects:
-            self.emit(lst, self.eval_spec_expr(ev, env, old))
+        emitted = {}
+        for eff in c.effects:
+            lst, ev = eff[0], eff[1]
+            if len(eff) > 2:
+                saved = (st.heap, st.ghost)
+                st.heap, st.ghost = dict(old[0]), dict(old[1])
+                try:
+                    cond = self.spec_bool(eff[2], env, old)
+                finally:
+                    st.heap, st.ghost = saved
+                if not st.branch(cond):
+                    continue
+            evv = self.eval_spec_expr(ev, env, old)
+            self.emit(lst, evv)
+            emitted.setdefault(lst, []).append(evv)
+        for g in set(emitted) | {e[0] for e in c.effects} | {g for g, t in c.ghost_init.items() if t == "events"}:
+            env[g] = VTuple(emitted.get(g, []))
         rt = self.result_type_for(c)
-        if rt == ("none",):
+        if c.result_expr is not None:
+            result = self.eval_spec_expr(c.result_expr, env, old)
+            if isinstance(result, VOpt) and rt[0] != "opt":
+                result = result.val
+        elif rt == ("none",):
             result = VNone
         else:
             result = mk_sym(st, self.tenv, rt, st.fresh_name(f"ret.{sname}"))
         env["result"] = result
-        for _k, ex in c.ensures.items():
-            st.assume(self.spec_bool(ex, env, old))
+        try:
+            for _k, ex in c.ensures.items():
+                st.assume(self.spec_bool(ex, env, old))
+            if not st.feasible(z3.BoolVal(True)):
+                raise PathInfeasible()
+        except PathInfeasible:
+            raise Unsupported(f"the contract of {c.fn} is unsatisfiable at this call site (line "
+                              f"{getattr(node, 'lineno', '?')}): inconsistent postconditions") from None
         if awaited and yields and self.await_hook is not None:
             self.await_hook(self, node, c, "after")
         return result
